@@ -121,4 +121,8 @@ TraceParse == /\ raw = EncMsg(c.m, c.le, c.sigpos)
 (* any bytes the reference parser accepts - e.g. with flag bits set that this version of the protocol does not
    define - handed to the implementation's parser: it recovers what the reference parser recovers *)
 TraceParseAny == rec = RecoveredK(raw)
+(* bytes that are NOT a well-formed message (a known header field of the wrong type, a required field missing ...):
+   the implementation's parser refuses them (recorded as type 0) - it is whoever parses first, e.g. the bus, that
+   pays for them, not the addressee *)
+TraceParseInvalid == ~WellFormed(raw) /\ rec.type = 0
 =============================================================================
